@@ -106,6 +106,7 @@ def gen(rng, tier, index):
         "how": gens.pick(rng, forms.CONFIGURE),
         "xform": gens.pick(rng, forms.PRESENT),
         "yform": gens.pick(rng, forms.PRESENT),
+        "carry": gens.pick(rng, forms.CARRY),
         "past": bool(rng.random() < 0.4),  # the estimator object has been fitted before, with another configuration
         "pseed": int(rng.integers(1 << 30)),
         "Z": rng.normal(size=(5, m)) * float(np.abs(X).std()),
@@ -221,6 +222,7 @@ def run(case, j):
     cnt = [0]
     with rt.hook_method(Ridge2FoldCV, "_2fold_cv", pre=pre, counter=cnt):
         j.lib("fit", est.fit, Xin, Yin)
+    est = forms.carry(est, case.get("carry", "same"), j)  # what is read afterwards may be a copy of what was fitted
     if case["n_jobs"] == 2:
         j.note("n_jobs_2_fits")
     # ---- folds
